@@ -47,7 +47,7 @@ var alphaChoices = []uint64{1, 2, 3, 0}
 func runC12(c *CaseCtx) *CaseResult {
 	r := rand.New(rand.NewSource(c.CaseSeed() ^ 0xc12))
 	cc := &ContCase{Kind: "map"}
-	cc.Slab = []uint32{256, 1024, 512}[c.Case%3]
+	cc.Slab = wideSlab(c.Case, []uint32{256, 1024, 512}[c.Case%3])
 	// all 4^4 alphabet profiles are enumerated over the case list
 	pi := c.Case % 256
 	prof := DigProfile{Salt: uint64(r.Int63())}
@@ -671,7 +671,7 @@ func runC13(c *CaseCtx) *CaseResult {
 		kind = "map"
 	}
 	cc := &ContCase{Kind: kind}
-	cc.Slab = []uint32{256, 512, 1024}[c.Case/2%3]
+	cc.Slab = wideSlab(c.Case, []uint32{256, 512, 1024}[c.Case/2%3])
 	cc.Prof = DefaultValProfile()
 	cc.Prof.PContainer = 15
 	cc.Prof.MaxDepth = 2
@@ -744,7 +744,7 @@ func runC18(c *CaseCtx) *CaseResult {
 	alpha0 := uint64(4 + r.Intn(6))
 	mk := func() *ContCase {
 		cc := &ContCase{Kind: kind}
-		cc.Slab = []uint32{256, 1024, 512}[c.Case/2%3]
+		cc.Slab = wideSlab(c.Case, []uint32{256, 1024, 512}[c.Case/2%3])
 		cc.Prof = DefaultValProfile()
 		cc.Prof.PContainer = 20
 		cc.Prof.MaxDepth = 3
@@ -994,7 +994,7 @@ func runC08(c *CaseCtx) *CaseResult {
 	alpha0 := uint64(8 + r.Intn(20))
 	mk := func() *ContCase {
 		cc := &ContCase{Kind: kind}
-		cc.Slab = []uint32{256, 1024, 512}[c.Case/4%3]
+		cc.Slab = wideSlab(c.Case, []uint32{256, 1024, 512}[c.Case/4%3])
 		cc.Prof = DefaultValProfile()
 		cc.Prof.PContainer = 22
 		cc.Prof.MaxDepth = 3
